@@ -74,6 +74,11 @@ CHECKS = {
    text="TLC evaluates the reference parser on all 65536 size fields x {body present, short, absent}, all flags, protocol ids, info ids, transform counts and magic words. The same families (quick: strided) plus random section orders, repeated sections, interleaved padding, zero counts, size fields cutting into sections and every truncation/perturbation of valid frames are decoded by DecodeFromBytes, Decode over a bytes reader and Decode over fragmenting stream readers; each must succeed exactly when Parse does with the same maps, HeaderLen = 14 + declared, PayloadLen = total + 4 - HeaderLen, and never consume more than min(14 + declared, len).",
    note="Trusted: TLC, segment projection (zero runs as {z:n}), recording source.",
    design="6 C10"),
+ "C07": dict(
+   technique="TLA+ model of the slot-sorted table with an arbitrary hash function (StrMap) checked by TLC + validation of real tables read through a hook",
+   text="TLC enumerates every key subset of a universe with the empty key and prefixes, every assignment of keys to slots (the hash is an arbitrary function chosen per load - every collision-chain shape), every slot-sorted item order and load/failed-load/never-loaded histories, and checks Get = Go-map semantics for every probe and probe slot. Recorded histories of real StrMap[int], StrMap[struct] and Str2Str instances (fresh random seeds per instance, reloads growing/shrinking, failed loads, never loaded, up to 5000 keys) are validated: each load must be an enabled Load action on the real table (slots, hashtable, prime count read through the hook; Item enumeration), each Get must match MapAbs and ImplGet on the real table.",
+   note="Trusted: TLC, hook strmap.VerifTable/VerifSlot, hex projection of keys, injective value encodings. Executions are not deterministic (maphash seeds): a rejected case is confirmed by re-running 300 fresh copies. 10^5-key maps are compared with a Go map in Go (monitor).",
+   design="6 C07"),
 }
 NOT_YET = "check not built yet in this revision of /verif (work in progress; see DESIGN.md section 6 for the plan)"
 
